@@ -8,6 +8,8 @@ package main
 //
 //	flagDecls        where an identifier named `authenticated` is declared (expected: one field of h3sHandler)
 //	flagWrites       every assignment to <x>.authenticated: enclosing function, value, chain of enclosing if-conditions
+//	                 (for the C01 facts flagWrites/authCalls/udpManagers/tcpSpawns the conditions that depend on the
+//	                 request are left out: which requests count as authentication requests is C02's clause)
 //	authCalls        every call of <..>.Authenticate: enclosing function, guards, and whether h.authMutex.Lock() and the
 //	                 `if h.authenticated { ...; return }` re-check precede it in that function
 //	udpManagers      every call of newUDPSessionManager: enclosing function, guards
@@ -105,12 +107,34 @@ func (authShapeComp) Run(op string) vh.Result {
 				rwName = p.Names[0].Name
 			}
 		}
+		// name of the *http.Request parameter, if any
+		reqName := ""
+		for _, p := range fd.Type.Params.List {
+			if asText(fset, p.Type) == "*http.Request" && len(p.Names) == 1 {
+				reqName = p.Names[0].Name
+			}
+		}
+		mentionsReq := func(e ast.Expr) bool {
+			found := false
+			ast.Inspect(e, func(n ast.Node) bool {
+				if id, ok := n.(*ast.Ident); ok && reqName != "" && id.Name == reqName {
+					found = true
+				}
+				return !found
+			})
+			return found
+		}
 		var stack []ast.Node
-		guards := func() string {
+		// guardsOf(false): the chain of enclosing if-conditions; guardsOf(true): the same without the conditions that
+		// depend on the REQUEST (which requests count as authentication requests is C02's clause, not C01's)
+		guardsOf := func(dropReq bool) string {
 			var g []string
 			for i, n := range stack {
 				ifs, ok := n.(*ast.IfStmt)
 				if !ok || i+1 >= len(stack) {
+					continue
+				}
+				if dropReq && mentionsReq(ifs.Cond) {
 					continue
 				}
 				switch stack[i+1] {
@@ -125,6 +149,8 @@ func (authShapeComp) Run(op string) vh.Result {
 			}
 			return strings.Join(g, " > ")
 		}
+		guards := func() string { return guardsOf(false) }
+		gate := func() string { return guardsOf(true) }
 		inGo := func() bool {
 			for _, n := range stack {
 				if _, ok := n.(*ast.GoStmt); ok {
@@ -149,17 +175,17 @@ func (authShapeComp) Run(op string) vh.Result {
 						if i < len(x.Rhs) {
 							rhs = asText(fset, x.Rhs[i])
 						}
-						add("flagWrites", fmt.Sprintf("%s | %s %s %s | %s", fname, asText(fset, l), x.Tok, rhs, guards()))
+						add("flagWrites", fmt.Sprintf("%s | %s %s %s | %s", fname, asText(fset, l), x.Tok, rhs, gate()))
 					}
 				}
 			case *ast.KeyValueExpr:
 				if id, ok := x.Key.(*ast.Ident); ok && id.Name == "authenticated" {
-					add("flagWrites", fmt.Sprintf("%s | literal %s | %s", fname, asText(fset, x.Value), guards()))
+					add("flagWrites", fmt.Sprintf("%s | literal %s | %s", fname, asText(fset, x.Value), gate()))
 				}
 			case *ast.UnaryExpr:
 				if x.Op == token.AND {
 					if se, ok := x.X.(*ast.SelectorExpr); ok && se.Sel.Name == "authenticated" {
-						add("flagWrites", fmt.Sprintf("%s | address-taken | %s", fname, guards()))
+						add("flagWrites", fmt.Sprintf("%s | address-taken | %s", fname, gate()))
 					}
 				}
 			case *ast.IfStmt:
@@ -174,7 +200,7 @@ func (authShapeComp) Run(op string) vh.Result {
 				if se, ok := x.Fun.(*ast.SelectorExpr); ok {
 					if in, ok := se.X.(*ast.SelectorExpr); ok && in.Sel.Name == "authenticated" &&
 						(se.Sel.Name == "Store" || se.Sel.Name == "Swap" || se.Sel.Name == "CompareAndSwap") && len(x.Args) > 0 {
-						add("flagWrites", fmt.Sprintf("%s | %s = %s | %s", fname, asText(fset, in), asText(fset, x.Args[len(x.Args)-1]), guards()))
+						add("flagWrites", fmt.Sprintf("%s | %s = %s | %s", fname, asText(fset, in), asText(fset, x.Args[len(x.Args)-1]), gate()))
 					}
 				}
 				switch {
@@ -191,13 +217,13 @@ func (authShapeComp) Run(op string) vh.Result {
 							lhs = strings.Join(ls, ",")
 						}
 					}
-					add("authCalls", fmt.Sprintf("%s | %s = %s | %s | lock-before=%v recheck-before=%v", fname, lhs, fun, guards(), seenLock, seenRecheck))
+					add("authCalls", fmt.Sprintf("%s | %s = %s | %s | lock-before=%v recheck-before=%v", fname, lhs, fun, gate(), seenLock, seenRecheck))
 				case fun == "newUDPSessionManager":
-					add("udpManagers", fmt.Sprintf("%s | %s", fname, guards()))
+					add("udpManagers", fmt.Sprintf("%s | %s", fname, gate()))
 				case fun == "newH3sHandler":
 					add("handlerCtors", fname)
 				case strings.HasSuffix(fun, ".handleTCPRequest"):
-					add("tcpSpawns", fmt.Sprintf("%s | go=%v | %s", fname, inGo(), guards()))
+					add("tcpSpawns", fmt.Sprintf("%s | go=%v | %s", fname, inGo(), gate()))
 				}
 			case *ast.Ident:
 				if rwName != "" && x.Name == rwName && x.Obj != nil && x.Obj.Kind == ast.Var {
